@@ -88,6 +88,9 @@ func (c *c20ctx) explore(name string, onlyBound int, body func(), check func(x *
 		r.Hit = key == r.Key
 		return
 	}
+	if only := os.Getenv("VERIF_ONLY_SCENARIO"); only != "" && !strings.Contains(name, only) {
+		return // debugging aid: restrict a worker to the scenarios whose name contains the given text
+	}
 	c.st.Scenarios++
 	reported := map[string]bool{}
 	outcomes := map[string]bool{}
@@ -98,6 +101,9 @@ func (c *c20ctx) explore(name string, onlyBound int, body func(), check func(x *
 		key, detail := judge(x)
 		w := witness()
 		o := fmt.Sprint(w)
+		if os.Getenv("VERIF_ONLY_SCENARIO") != "" && !outcomes[o] {
+			fmt.Fprintln(os.Stderr, "outcome:", o)
+		}
 		outcomes[o] = true
 		if len(c.states) < 500000 {
 			c.states[name+o] = struct{}{}
